@@ -92,7 +92,38 @@ type histEntry struct {
 }
 
 func nodeIdOf(n int) crypto.Hash { return fakeHash(fmt.Sprintf("node-%d", n)) }
-func txIdOf(n int) crypto.Hash   { return fakeHash(fmt.Sprintf("tx-%d", n)) }
+
+var (
+	fakeTxMu  sync.Mutex
+	fakeTxs   []*common.VersionedTransaction // fakeTxs[n]: a real transaction whose payload hash is txIdOf(n)
+	fakeTxIdx = map[crypto.Hash]int{}
+)
+
+func fakeTx(n int) *common.VersionedTransaction {
+	fakeTxMu.Lock()
+	defer fakeTxMu.Unlock()
+	for len(fakeTxs) <= n {
+		tx := common.NewTransactionV5(common.XINAssetId)
+		tx.Extra = []byte(fmt.Sprintf("verif-tx-%d", len(fakeTxs)))
+		ver := tx.AsVersioned()
+		fakeTxIdx[ver.PayloadHash()] = len(fakeTxs)
+		fakeTxs = append(fakeTxs, ver)
+	}
+	return fakeTxs[n]
+}
+
+func txIdOf(n int) crypto.Hash { return fakeTx(n).PayloadHash() }
+
+// fakeTxByHash finds the generated transaction with this payload hash (numbers 0..8191).
+func fakeTxByHash(h crypto.Hash) *common.VersionedTransaction {
+	fakeTx(8191)
+	fakeTxMu.Lock()
+	defer fakeTxMu.Unlock()
+	if i, ok := fakeTxIdx[h]; ok {
+		return fakeTxs[i]
+	}
+	return nil
+}
 
 // sortedCNodes orders the records exactly as kernel.LoadConsensusNodes does.
 func sortedCNodes(hist []histEntry) []*kernel.CNode {
